@@ -100,6 +100,16 @@ def _parse_timestamp(timestamp):
             return ts
 
 
+def _timestamp_gt(a, b):
+    """a > b for timestamps that may be a Timestamp or a float (e.g. 1.5e0)."""
+    if isinstance(a, Timestamp) == isinstance(b, Timestamp):
+        return a > b
+    try:
+        return float(a) > float(b)
+    except OverflowError:
+        raise ValueError("Timestamp out of range")
+
+
 def _is_character_escaped(s, charpos):
     num_bslashes = 0
     while (charpos > num_bslashes
@@ -621,7 +631,7 @@ def text_fd_to_metric_families(fd):
                 if group is not None and g == group:
                     if (sample.timestamp is None) != (group_timestamp is None):
                         raise ValueError("Mix of timestamp presence within a group: " + line)
-                    if group_timestamp is not None and group_timestamp > sample.timestamp and typ != 'info':
+                    if group_timestamp is not None and _timestamp_gt(group_timestamp, sample.timestamp) and typ != 'info':
                         raise ValueError("Timestamps went backwards within a group: " + line)
                 else:
                     group_timestamp_samples = set()
